@@ -196,3 +196,80 @@ func c19SamplesPrivate(c *Ctx) {
 	}
 	c.Floor(rule, 1)
 }
+
+// c19SamplesExact implements C19.samples-exact: what Samples() returns is what the window holds — no invented values.
+// A result allocated at the full length of the sample list and returned whole has to be filled by EVERY iteration of
+// the copying loop; a loop that skips some samples (seed c19r4h: the ones that expired since the last cleaner pass)
+// while still returning the full-length buffer exports one zero per skipped sample: min 0 and a lowered average for
+// a value nobody ever added. (A result built with append, or cut to the number of elements written, is fine.)
+func c19SamplesExact(c *Ctx) {
+	rule := "C19.samples-exact"
+	c.Rule(rule, "A2 in (*slidingWindow).Samples: if a result is a make([]T, len(samples)) returned without re-slicing, then in the range loop over the samples every path from the loop body's entry back to the header passes a store into that slice")
+	fn := c.Func("metrics", "(*slidingWindow).Samples")
+	c.Examined(fn)
+	n := 0
+	doneMS := map[*ssa.MakeSlice]bool{}
+	var mss []*ssa.MakeSlice
+	for _, leaf := range resultLeaves(fn, 0) {
+		for s := range sourcesOf(leaf.V) { // a function with defer returns through a spilled cell
+			if ms, ok := s.(*ssa.MakeSlice); ok && !doneMS[ms] {
+				doneMS[ms] = true
+				mss = append(mss, ms)
+			}
+		}
+	}
+	for _, ms := range mss {
+		if _, isConst := ms.Len.(*ssa.Const); isConst {
+			continue
+		}
+		n++
+		stop := map[*ssa.BasicBlock]bool{}
+		for _, b := range fn.Blocks {
+			for _, in := range b.Instrs {
+				if st, ok := in.(*ssa.Store); ok {
+					if ia, ok := st.Addr.(*ssa.IndexAddr); ok && ia.X == ssa.Value(ms) {
+						stop[b] = true
+					}
+				}
+			}
+		}
+		skips := false
+		loops := naturalLoops(fn)
+		for h, body := range loops {
+			has := false
+			for b := range stop {
+				if body[b] {
+					has = true
+				}
+			}
+			if !has {
+				continue
+			}
+			for _, s := range h.Succs {
+				if !body[s] || s == h {
+					continue
+				}
+				seen := map[*ssa.BasicBlock]bool{}
+				var walk func(b *ssa.BasicBlock)
+				walk = func(b *ssa.BasicBlock) {
+					if seen[b] || stop[b] || !body[b] {
+						return
+					}
+					seen[b] = true
+					for _, nx := range b.Succs {
+						if nx == h {
+							skips = true
+							return
+						}
+						walk(nx)
+					}
+				}
+				walk(s)
+			}
+		}
+		c.Check(rule, fmt.Sprintf("%s|full-length-result#%d|filled-by-every-iteration", fnName(fn), n), !skips && len(stop) > 0, ms.Pos(), "a full-length result with skipped positions reports zeros that were never sampled")
+	}
+	if n == 0 {
+		c.add(rule, fnName(fn)+"|no-full-length-result", Discharged, fn.Pos(), false, "the result is not a full-length make returned whole")
+	}
+}
